@@ -11,13 +11,14 @@ from ..pathcond import implied
 MANIFEST = {
     'technique': 'sharing-contract table (SHARED vs COPIED classification of each state component on every path of copy/proxy/flow_proxy/link_with/unlink); positional '
             'provenance check of __reduce__ tuples against reconstructor signatures; dead-optional-parameter rule for constructors; stale-alias rule for copy_like; '
-            'must-follow rules for the cached views and the lookup cache of a copy target',
+            'must-follow rules for the cached views and the lookup cache of a copy target; storability rule for attributes of hand-built instances',
     'text': 'Decides for every input: copy() copies flows, phase and thermal condition; flow_proxy shares flow data only; proxy shares the indexer and the thermal '
             'condition; link_with shares exactly the parts selected by its flags on every path; unlink copies data, phase and thermal condition and resets caches; '
             'every __reduce__ tuple lines up position by position with its reconstructor; every optional constructor argument that is compared with None is also '
             'used as a value (so it cannot be silently discarded); copy_like implementations use no stale alias of re-bound containers, and the storage / phase '
-            "tuple they re-bind on the target is followed by dropping the target's cached mass/volume views and re-selecting its lookup cache. Equality of "
-            'observable state after unpickling is not decided.',
+            "tuple they re-bind on the target is followed by dropping the target's cached mass/volume views and re-selecting its lookup cache; every attribute "
+            'stored on an instance built with K.__new__(K) in the stream, indexer and sparse modules is storable. Equality of observable state after unpickling is '
+            'not decided.',
 }
 
 ST = 'thermosteam/_stream.py'
@@ -35,6 +36,7 @@ def run(ctx):
         'D4 no stale alias in copy_like implementations',
         'D5 re-binding of view-wrapped storage (as done by copy_like through _expand_phases / row replacement) drops the cached mass/volume views',
         'D6 after copy_like / mix_from change the phase tuple the shared lookup cache is re-selected for the new (phases, chemicals) key',
+        'D7 every attribute stored on an instance created with K.__new__(K) in the stream / indexer / sparse modules is storable there',
     ]
     ctx.not_decided = ['equality of observable state after unpickling', 'Chemical/Thermo pickles beyond the argument tuple']
     d1 = ctx.rule('D1', 'sharing contract table', floor=14)
@@ -57,6 +59,9 @@ def run(ctx):
     d6 = ctx.rule('D6', 'the per-(phases, chemicals) index cache of the copy target is refreshed after its inputs change', floor=3)
     from ..generic import index_cache_follows_inputs
     index_cache_follows_inputs(prog, d6)
+    d7 = ctx.rule('D7', 'hand-built copies only store attributes that can be stored', floor=40)
+    from ..generic import storable_attributes
+    storable_attributes(prog, d7, rels={ST, MS, IX, 'thermosteam/_thermal_condition.py', 'thermosteam/base/sparse.py'})
 
 
 def _stores(p):
